@@ -16,7 +16,7 @@ for m in rows:
     waves[w][1] += 1
     if m['initially_missed']:
         waves[w][0] += 1
-ordn = ['first', 'second', 'third', 'fourth', 'fifth', 'sixth', 'seventh', 'eighth', 'ninth', 'tenth', 'eleventh', 'twelfth']
+ordn = ['first', 'second', 'third', 'fourth', 'fifth', 'sixth', 'seventh', 'eighth', 'ninth', 'tenth', 'eleventh', 'twelfth', 'thirteenth', 'fourteenth', 'fifteenth', 'sixteenth', 'seventeenth', 'eighteenth', 'nineteenth', 'twentieth']
 per_wave = ', '.join('%d of %d in the %s' % (waves[w][0], waves[w][1], ordn[ord(w) - ord('a')]) for w in sorted(waves))
 out = '''## 10. Sensitivity: which check catches which seeded change
 
